@@ -50,10 +50,37 @@ for f in conf:
         kept = [l for l in head if not (key(l) in replaced and l in base)      # an entry the branch rewrote
                 and not (l in base and l not in theirs_set)]                    # an entry the branch deleted
         open(f, "w").write("\n".join(kept + added) + "\n")
+    elif f.startswith("tools/manifest.d/") and f.endswith(".json"):
+        # key by key: the side that changed a key wins; both changed = HEAD's text + what the branch appended to the base
+        import json as _j
+        base_rev = sh(f"git merge-base HEAD {br}").stdout.strip()
+        b, m, r = (_j.loads(sh(f"git show {rev}:{f}").stdout) for rev in (base_rev, "HEAD", br))
+        out = {}
+        for k in list(m) + [k for k in r if k not in m]:
+            if k not in m:
+                out[k] = r[k]
+            elif r.get(k) == b.get(k):
+                out[k] = m[k]
+            elif m[k] == b.get(k):
+                out[k] = r[k]
+            else:
+                bv, rv = str(b.get(k, "")), str(r[k])
+                i = 0
+                while i < min(len(bv), len(rv)) and bv[i] == rv[i]:
+                    i += 1
+                out[k] = str(m[k]) + " " + rv[i:]
+        _j.dump(out, open(f, "w"), indent=1, ensure_ascii=False)
     else:
         s = open(f).read()
         s = re.sub(r"<<<<<<< [^\n]*\n(.*?)=======\n(.*?)>>>>>>> [^\n]*\n", lambda m: m.group(1) + m.group(2), s, flags=re.S)
         open(f, "w").write(s)
+        if f.endswith(".py"):
+            import ast as _ast
+            try:
+                _ast.parse(s)
+            except SyntaxError as e:
+                print("MERGE NEEDS HAND WORK (both sides kept, does not parse):", f, e)
+        print("both sides of every conflict kept in", f, "- review it")
 import ast
 ast.parse(open("tools/extract.py").read())
-print(sh("python3 tools/extract.py && python3 tools/mklake.py && git add -A && git commit -qm 'merge %s' && echo merged" % br).stdout)
+print(sh("python3 tools/extract.py && python3 tools/mklake.py && python3 tools/mkmanifest.py && python3 tools/mkdesign.py && git add -A && git commit -qm 'merge %s' && echo merged" % br).stdout)
